@@ -66,6 +66,9 @@ def run(case, ctx):
     }
     if it == "MATCHED_INSTANCE" and "IOU" in metrics and r.random() < 0.4:
         cfg.update(dm="IOU", dt=0.7)
+    if i % 4 == 2:
+        cfg["use_default_lists"] = True  # the constructor's own (shared) default metric lists
+        cfg["handler"] = None
     ev = pan.make_evaluator(cfg)
     recorded = {}
     real_eval = ev.evaluate
@@ -97,8 +100,18 @@ def run(case, ctx):
                 # spread labels over the groups; leave some groups empty on one side
                 pred = np.where(pred > 0, (pred - 1) % (2 * ng) + 1, 0).astype(np.uint8)
                 refa = np.where(refa > 0, (refa - 1) % (2 * ng) + 1, 0).astype(np.uint8)
-                if it == "MATCHED_INSTANCE":
-                    pass  # equal labels = matched instances
+                if s == subjects[0] and i % 4 == 1:
+                    # a large instance that is one voxel off: relative volume differences of 5e-05 (exponent notation)
+                    refa = np.zeros(20010, dtype=np.uint8)
+                    pred = np.zeros(20010, dtype=np.uint8)
+                    refa[2:20002] = 1
+                    pred[2:20003] = 1
+                    ctx.count("f:C18.values_in_exponent_notation")
+                if s == subjects[len(subjects) // 2] and i % 4 == 2:
+                    try:  # some other evaluator is constructed in the same process while the aggregator is in use
+                        pan.Panoptica_Evaluator(expected_input=pan.InputType.MATCHED_INSTANCE, decision_metric=pan.Metric.clDSC, decision_threshold=0.5)
+                    except Exception:  # noqa: BLE001
+                        pass
                 current["name"] = s
                 agg.evaluate(pred, refa, s)
     except Exception as e:  # noqa: BLE001
